@@ -217,3 +217,197 @@ Proof.
       + apply IH. assumption. }
   rewrite A, B. destruct (find_q k nq) as [[o' v']|]; destruct (find_q k lq) as [[o v]|]; reflexivity.
 Qed.
+
+(* ---- paths --------------------------------------------------------------------- *)
+
+(* get_referable along an idShort path *)
+Fixpoint resolve (n : node) (p : list nat) : option node :=
+  match p with
+  | [] => Some n
+  | k :: r => match find_kid k (n_kids n) with Some x => resolve x r | None => None end
+  end.
+
+(* idShorts unique in every child collection, types / names unique in every qualifier and
+   extension set, at every depth (what the constructors and C01 guarantee) *)
+Definition wf (n : node) : Prop := forall p r, resolve n p = Some r -> wf1 r.
+
+Lemma wf_root : forall n, wf n -> wf1 n.
+Proof. intros n W. apply (W [] n). reflexivity. Qed.
+Lemma wf_kid : forall n k x, wf n -> find_kid k (n_kids n) = Some x -> wf x.
+Proof. intros n k x W F p r R. apply (W (k :: p) r). simpl. rewrite F. exact R. Qed.
+
+Definition same_attrs (r n : node) : Prop :=
+  n_cls r = n_cls n /\ n_key r = n_key n /\ n_pay r = n_pay n /\
+  forall qk, option_map snd (find_q qk (n_quals r)) = option_map snd (find_q qk (n_quals n)).
+
+Lemma same_attrs_refl : forall n, same_attrs n n.
+Proof. intro. repeat split; auto. Qed.
+
+Lemma equal_paths : forall p live new us, wf live -> wf new -> n_cls live = n_cls new ->
+  match resolve new p with
+  | None => resolve (upd live new us) p = None
+  | Some n => exists r, resolve (upd live new us) p = Some r /\ same_attrs r n /\
+                        ((us = true \/ p <> []) -> n_src r = n_src n)
+  end.
+Proof.
+  induction p as [|k r IH]; intros live new us WL WN C.
+  - simpl. exists (upd live new us). split; auto.
+    destruct (upd_fields live new us) as [F1 [F2 [F3 [F4 [F5 [F6 F7]]]]]].
+    split.
+    + split; [congruence|]. split; auto. split; auto. intro qk. rewrite F6.
+      destruct (wf_root _ WL) as [_ QL]. destruct (wf_root _ WN) as [_ QN].
+      rewrite (qual_lookup _ _ qk QL QN).
+      destruct (find_q qk (n_quals new)) as [[o' v']|]; auto.
+      destruct (find_q qk (n_quals live)) as [[o v]|]; reflexivity.
+    + intros [U|U]; [|contradiction]. rewrite F5, U. reflexivity.
+  - simpl. rewrite (kid_lookup live new us k (wf_root _ WL) (wf_root _ WN)).
+    destruct (find_kid k (n_kids new)) as [n'|] eqn:FN; auto.
+    destruct (find_kid_key _ _ _ FN) as [KN _].
+    destruct (survivor_of (n_kids live) n') as [l|] eqn:S.
+    + destruct (survivor_key _ _ _ S) as [FL [CL _]]. rewrite KN in FL.
+      assert (H := IH l n' true (wf_kid _ _ _ WL FL) (wf_kid _ _ _ WN FN) CL).
+      destruct (resolve n' r) as [n|]; auto.
+      destruct H as [x [R1 [R2 R3]]]. exists x. split; [exact R1|]. split; [exact R2|]. intros _. apply R3. left. reflexivity.
+    + destruct (resolve n' r) as [n|]; auto. exists n. split; auto. split; [apply same_attrs_refl|auto].
+Qed.
+
+(* the live and the new tree have children of the same class under every idShort of the path *)
+Fixpoint cmatch (live new : node) (p : list nat) : Prop :=
+  match p with
+  | [] => True
+  | k :: r => match find_kid k (n_kids live), find_kid k (n_kids new) with
+              | Some l, Some n => n_cls l = n_cls n /\ cmatch l n r
+              | _, _ => False
+              end
+  end.
+
+Lemma identity_paths : forall p live new us, wf live -> wf new -> cmatch live new p ->
+  exists l n r, resolve live p = Some l /\ resolve new p = Some n /\
+                resolve (upd live new us) p = Some r /\ n_oid r = n_oid l /\
+                (forall qk qo qv x, find_q qk (n_quals l) = Some (qo, qv) -> find_q qk (n_quals n) = Some x ->
+                                    exists v, find_q qk (n_quals r) = Some (qo, v)).
+Proof.
+  induction p as [|k r IH]; intros live new us WL WN M.
+  - exists live, new, (upd live new us). simpl.
+    destruct (upd_fields live new us) as [F1 [_ [_ [_ [_ [F6 _]]]]]].
+    repeat split; auto. intros qk qo qv [o' v'] Q1 Q2. rewrite F6.
+    destruct (wf_root _ WL) as [_ QL]. destruct (wf_root _ WN) as [_ QN].
+    rewrite (qual_lookup _ _ qk QL QN), Q2, Q1. eauto.
+  - simpl in M. destruct (find_kid k (n_kids live)) as [l|] eqn:FL; [|contradiction].
+    destruct (find_kid k (n_kids new)) as [n'|] eqn:FN; [|contradiction]. destruct M as [C M].
+    destruct (find_kid_key _ _ _ FN) as [KN _].
+    assert (S : survivor_of (n_kids live) n' = Some l).
+    { unfold survivor_of. rewrite KN, FL. apply Nat.eqb_eq in C. rewrite C. reflexivity. }
+    destruct (IH l n' true (wf_kid _ _ _ WL FL) (wf_kid _ _ _ WN FN) M) as [l0 [n0 [r0 [R1 [R2 [R3 [R4 R5]]]]]]].
+    exists l0, n0, r0. simpl. rewrite FL, FN.
+    rewrite (kid_lookup live new us k (wf_root _ WL) (wf_root _ WN)), FN, S. auto.
+Qed.
+
+Lemma source_rule : forall live new,
+  n_src (upd live new false) = n_src live /\ n_src (upd live new true) = n_src new.
+Proof.
+  intros. destruct (upd_fields live new false) as [_ [_ [_ [_ [A _]]]]].
+  destruct (upd_fields live new true) as [_ [_ [_ [_ [B _]]]]]. auto.
+Qed.
+
+(* ---- uniqueness of idShorts / types / names is kept at every depth ---------------- *)
+
+Lemma nodup_app' : forall {A} (l l' : list A), NoDup l -> NoDup l' -> (forall x, In x l -> ~ In x l') ->
+  NoDup (l ++ l').
+Proof.
+  induction l as [|a r IH]; simpl; intros l' N N' H; auto.
+  inversion N; subst. constructor.
+  - rewrite in_app_iff. intros [X|X]; [contradiction|]. apply (H a); auto.
+  - apply IH; auto.
+Qed.
+Lemma nodup_map_filter : forall {A B} (g : A -> B) (f : A -> bool) l, NoDup (map g l) -> NoDup (map g (filter f l)).
+Proof.
+  induction l as [|a r IH]; simpl; intro N; auto. inversion N; subst.
+  destruct (f a); simpl; auto. constructor; auto.
+  intro X. apply H1. apply in_map_iff in X. destruct X as [y [E Y]]. apply filter_In in Y.
+  apply in_map_iff. exists y. tauto.
+Qed.
+Lemma find_kid_in : forall l x, NoDup (map n_key l) -> In x l -> find_kid (n_key x) l = Some x.
+Proof.
+  induction l as [|y r IH]; simpl; intros x N H; [contradiction|]. inversion N; subst.
+  destruct H as [H|H].
+  - subst. rewrite Nat.eqb_refl. reflexivity.
+  - destruct (Nat.eqb (n_key y) (n_key x)) eqn:E; auto.
+    apply Nat.eqb_eq in E. exfalso. apply H2. rewrite E. apply in_map. exact H.
+Qed.
+Lemma find_q_in' : forall {B} (l : list (nat * B)) k v, NoDup (map fst l) -> In (k, v) l -> find_q k l = Some v.
+Proof.
+  induction l as [|[k' v'] r IH]; simpl; intros k v N H; [contradiction|]. inversion N; subst.
+  destruct H as [H|H].
+  - inversion H; subst. rewrite Nat.eqb_refl. reflexivity.
+  - destruct (Nat.eqb k' k) eqn:E; auto.
+    apply Nat.eqb_eq in E. subst. exfalso. apply H2. apply (in_map fst) in H. exact H.
+Qed.
+
+Lemma kept_keys : forall (surv : list (nat * node)) lk,
+  (forall kk u, In (kk, u) surv -> n_key u = kk) -> NoDup (map n_key lk) ->
+  let kept := flat_map (fun l => match find_q (n_key l) surv with Some u => [u] | None => [] end) lk in
+  NoDup (map n_key kept) /\ (forall x, In x (map n_key kept) -> In x (map n_key lk) /\ find_q x surv <> None).
+Proof.
+  intros surv lk HK. induction lk as [|l r IH]; simpl; intro N.
+  - split; [constructor|]. intros x [].
+  - inversion N; subst. destruct (IH H2) as [I1 I2].
+    destruct (find_q (n_key l) surv) as [u|] eqn:F; simpl.
+    + assert (KU : n_key u = n_key l) by (apply (HK _ _ (find_q_in _ _ _ F))). split.
+      * constructor; auto. rewrite KU. intro X. apply I2 in X. tauto.
+      * intros x [X|X]; [subst; rewrite KU; split; auto; congruence|]. destruct (I2 x X). auto.
+    + split; auto. intros x X. destruct (I2 x X). auto.
+Qed.
+
+Lemma upd_kids_nodup : forall live ch', NoDup (map n_key (n_kids live)) -> NoDup (map n_key ch') ->
+  NoDup (map n_key (upd_kids live ch')).
+Proof.
+  intros live ch' NL NN. unfold upd_kids. rewrite map_app.
+  destruct (kept_keys (survivors live ch') (n_kids live) (survivors_keys live ch') NL) as [K1 K2].
+  apply nodup_app'; auto.
+  - apply nodup_map_filter. exact NN.
+  - intros x X Y. destruct (K2 x X) as [_ Q]. rewrite (survivors_lookup live ch' x NN) in Q.
+    apply in_map_iff in Y. destruct Y as [n'' [E Y]]. apply filter_In in Y. destruct Y as [Y1 Y2].
+    subst x. rewrite (find_kid_in ch' n'' NN Y1) in Q.
+    destruct (survivor_of (n_kids live) n''); [discriminate|]. apply Q. reflexivity.
+Qed.
+
+Lemma upd_quals_nodup : forall lq nq, NoDup (map fst lq) -> NoDup (map fst nq) ->
+  NoDup (map fst (upd_quals lq nq)).
+Proof.
+  intros lq nq NL NN. unfold upd_quals. rewrite map_app.
+  assert (A : NoDup (map fst (flat_map (fun q => match find_q (fst q) nq with Some (_, v') => [(fst q, (fst (snd q), v'))] | None => [] end) lq)) /\
+              forall x, In x (map fst (flat_map (fun q => match find_q (fst q) nq with Some (_, v') => [(fst q, (fst (snd q), v'))] | None => [] end) lq)) -> In x (map fst lq)).
+  { clear NN. induction lq as [|[k0 [o0 v0]] r IH]; simpl.
+    - split; [constructor|]. intros x [].
+    - inversion NL; subst. destruct (IH H2) as [I1 I2].
+      destruct (find_q k0 nq) as [[o' v']|]; simpl.
+      + split; [constructor; auto|]. intros x [X|X]; auto.
+      + split; auto. }
+  destruct A as [A1 A2].
+  apply nodup_app'; auto.
+  - apply nodup_map_filter. exact NN.
+  - intros x X Y. apply A2 in X. apply in_map_iff in Y. destruct Y as [[k v] [E Y]]. simpl in E. subst k.
+    apply filter_In in Y. destruct Y as [_ Y]. simpl in Y.
+    destruct (find_q x lq) eqn:F; [discriminate|]. apply find_q_none in F. contradiction.
+Qed.
+
+Lemma wf1_upd : forall live new us, wf1 live -> wf1 new -> wf1 (upd live new us).
+Proof.
+  intros live new us [L1 L2] [N1 N2]. destruct (upd_fields live new us) as [_ [_ [_ [_ [_ [F6 F7]]]]]].
+  unfold wf1. rewrite F6, F7. split; [apply upd_kids_nodup|apply upd_quals_nodup]; auto.
+Qed.
+
+Lemma wf_upd : forall live new us, wf live -> wf new -> wf (upd live new us).
+Proof.
+  intros live new us WL WN p. revert live new us WL WN.
+  induction p as [|k p IH]; intros live new us WL WN r R.
+  - simpl in R. inversion R; subst. apply wf1_upd; apply wf_root; assumption.
+  - simpl in R. rewrite (kid_lookup live new us k (wf_root _ WL) (wf_root _ WN)) in R.
+    destruct (find_kid k (n_kids new)) as [n'|] eqn:FN; [|discriminate].
+    destruct (find_kid_key _ _ _ FN) as [KN _].
+    destruct (survivor_of (n_kids live) n') as [l|] eqn:S.
+    + destruct (survivor_key _ _ _ S) as [FL _]. rewrite KN in FL.
+      apply (IH l n' true (wf_kid _ _ _ WL FL) (wf_kid _ _ _ WN FN) r R).
+    + apply (wf_kid _ _ _ WN FN p r R).
+Qed.
